@@ -39,7 +39,11 @@ class DispatchingRequestHandler(BaseHTTPRequestHandler):
         pass  # suppress printing of every request to stderr
 
     def get_first_path_element(self):
-        parsed_path = urlparse(self.path)
+        try:
+            parsed_path = urlparse(self.path)
+        except ValueError as ex:
+            # urlparse refuses some request targets (e.g. 'Invalid IPv6 URL' for unbalanced brackets)
+            raise InvalidPathError(reason=f'invalid request target: {ex}', soap_fault=None) from ex
         path_elements = parsed_path.path.split('/')
         if len(path_elements[0]) > 0 or len(path_elements) == 1:
             return path_elements[0]
